@@ -38,6 +38,9 @@ CountsSum == \A k \in 1..W : LET c == Counts(rows, k)
 RepRows(m) == [q \in 1..(m * Len(rows)) |-> rows[((q - 1) % Len(rows)) + 1]]
 CountsOfRepeat == \A k \in 1..W : \A m \in {2, 3} :
                      rows # <<>> => Counts(RepRows(m), k) = {<<c[1], m * c[2]>> : c \in Counts(rows, k)}
+\* the index lists exactly the rows in which the k-mer is counted at least once
+IndexAgreesWithCounts == \A k \in 1..W : \A e \in Index(rows, k) :
+                            e[2] = {j \in DOMAIN rows : \E c \in Counts(<<rows[j]>>, k) : c[1] = e[1]} /\ e[2] # {}
 MinimizerIsAKmer == \A k \in 1..W : \A w \in k..W : \A j \in DOMAIN rows : \A i \in 1..NWin(rows[j], w) :
                        \E q \in i..(i + w - k) : Minimizers(rows, k, w)[j][i] = Window(rows[j], q, k)
 \* action property: extending the last row never changes what the earlier rows yield, and only appends to its own
@@ -55,5 +58,6 @@ Emit == PrintT(ToJson([rows |-> rows,
                        pexp |-> [k \in 1..W |-> PExp(k)], bexp |-> BExp,
                        scoresLO |-> [k \in 1..W |-> Scores(rows, LogOdds(k), k)],
                        minim |-> [k \in 1..W |-> [w \in 1..W |-> IF w >= k THEN Minimizers(rows, k, w) ELSE <<>>]],
+                       index |-> [k \in 1..W |-> Index(rows, k)],
                        counts |-> [k \in 1..W |-> Counts(rows, k)]]))
 ==============================================================================
